@@ -12,6 +12,7 @@ fn main() {
         "C16" => vh::c16::main(mode),
         "C06" => vh::c06::main(mode),
         "C20" => vh::c20::main(mode),
+        "C19" => vh::c19::main(mode),
         _ => {
             eprintln!("unknown property {id}");
             2
